@@ -212,6 +212,11 @@ Fixpoint feed_all (buf : bytes) (chunks : list bytes) (acc : list frame) (st : s
 Definition run_chunks (chunks : list bytes) := feed_all [] chunks [] NeedMore.
 
 (** ---- serializer ---- *)
+(** write_line_payload: CR and LF inside a simple string / error are written as spaces *)
+Definition clean1 (c : Z) : Z := if (c =? 13) || (c =? 10) then 32 else c.
+Definition clean (b : bytes) : bytes := map clean1 b.
+Definition no_crnl (b : bytes) : bool := forallb (fun c => negb ((c =? 13) || (c =? 10))) b.
+
 (** bytes written and whether serialisation completed; a NoResponse frame makes
     serialize_resp_frame return Err after the bytes written so far *)
 Fixpoint ser (f : frame) : bytes * bool :=
@@ -224,8 +229,8 @@ Fixpoint ser (f : frame) : bytes * bool :=
                 end
     end in
   match f with
-  | FSimple b => (43 :: b ++ crlf, true)
-  | FError b => (45 :: b ++ crlf, true)
+  | FSimple b => (43 :: clean b ++ crlf, true)
+  | FError b => (45 :: clean b ++ crlf, true)
   | FInt z => (58 :: print_int z ++ crlf, true)
   | FBulk b => (36 :: print_nat (len b) ++ crlf ++ b ++ crlf, true)
   | FNullBulk => (36 :: 45 :: 49 :: crlf, true)
@@ -258,7 +263,7 @@ Fixpoint wf (d : nat) (f : frame) : Prop :=
   | O => False
   | S d' =>
     match f with
-    | FSimple b | FError b => has_crlf b = false
+    | FSimple b | FError b => no_crnl b = true
     | FInt z => in_i64 z = true
     | FBulk b => len b <= i64_max
     | FNullBulk | FNullArray | FNull | FBool _ => True
@@ -270,13 +275,24 @@ Fixpoint wf (d : nat) (f : frame) : Prop :=
     end
   end.
 
+(** what any frame reads back as: line payloads cleaned (Proofs: reply framing) *)
+Fixpoint sanitize (f : frame) : frame :=
+  match f with
+  | FSimple b => FSimple (clean b)
+  | FError b => FError (clean b)
+  | FArray l => FArray (map sanitize l)
+  | FMap l => FMap (map sanitize l)
+  | FSet l => FSet (map sanitize l)
+  | _ => f
+  end.
+
 (** the same as a boolean (evaluable) predicate *)
 Fixpoint wfb (d : nat) (f : frame) : bool :=
   match d with
   | O => false
   | S d' =>
     match f with
-    | FSimple b | FError b => negb (has_crlf b)
+    | FSimple b | FError b => no_crnl b
     | FInt z => in_i64 z
     | FBulk b => len b <=? i64_max
     | FNullBulk | FNullArray | FNull | FBool _ => true
